@@ -164,6 +164,14 @@ def c01(run):
         b = i[4:]
         for dd in range(100):
             texts.append(cc + "%02d" % dd + b)
+    # the code points a case mapping relates to ASCII, at every position of a few letter-rich IBANs
+    from streams import CASE_RELATED
+    for cc in ("GB", "MT", "NL", "DE", "LC"):
+        if cc in S.table:
+            i = S.iban(cc)
+            for p in range(len(i)):
+                for ch in CASE_RELATED():
+                    texts.append(i[:p] + ch + i[p + 1:])
     base = S.iban("DE")
     for a in UPPER:
         for b in UPPER:
@@ -321,7 +329,8 @@ def c04(run):
     for b in r.sample(bics, run.scale(300, len(bics))):
         texts += [b, S.mutate(b), S.decorate(S.mutate(b))]
     base8, base11 = "GENODEM1", "GENODEM1GLS"
-    alph = S.wide if run.tier == "thorough" else r.sample(S.wide, 40) + list("0Aa -")
+    from streams import CASE_RELATED
+    alph = S.wide if run.tier == "thorough" else r.sample(S.wide, 40) + list("0Aa -") + CASE_RELATED()
     for base in (base8, base11, "1234DEWWXXX"):
         for p in range(len(base)):
             for ch in alph:
@@ -2045,6 +2054,9 @@ def c15(run):
                 x, y = ("".join(r.choice(DIGITS) for _ in range(10)) for _ in range(2))
                 if r.random() < 0.5:
                     x = x[:8] + x[8] * 2
+                if r.random() < 0.3:      # the call in between fails (a letter among the digits)
+                    p = r.randrange(10)
+                    y = y[:p] + r.choice("AZ-") + y[p + 1:]
                 tri.append([["algo.validate", hx(key), "-", hx(v)] for v in (x, y, x)])
             else:
                 cc = key[:2]
@@ -2077,7 +2089,7 @@ def c15(run):
             # a verdict that the published rule contradicts although the call is right when made first:
             # some earlier call of the history left state behind (find a short history that shows it)
             for j, (op, out) in enumerate(zip(t, (a, b_, c))):
-                if op[0] != "algo.validate" or reported >= 3:
+                if op[0] != "algo.validate" or reported >= 3 or not unhx(op[3]).isdigit():
                     continue
                 w = _nr.de(unhx(op[1])[3:], unhx(op[3]))
                 if not isinstance(w, bool) or (out == "ok T") == w:
@@ -2471,6 +2483,8 @@ def c03(run):
     r = S.r
     uni_digits = [d for d in U()[0] if not d.isascii()]
     uni_letters = [chr(c) for c in range(0xC0, 0x3000) if chr(c).isalpha()][::7] + U()[2][:40]
+    from streams import CASE_RELATED
+    case_rel = [x for x in CASE_RELATED() if x.isalpha()]
     texts, ops = [], []
     per = run.scale(3, 50)
     for cc in S.countries:
@@ -2506,9 +2520,9 @@ def c03(run):
                         if x != i[p]:
                             muts.append(i[:p] + x + i[p + 1:])
                 else:
-                    x = r.choice(uni_letters)
-                    if common.clean(x) != i[p]:
-                        muts.append(i[:p] + x + i[p + 1:])
+                    for x in [r.choice(uni_letters)] + case_rel:
+                        if common.clean(x) != i[p] and len(common.clean(x)) == 1:
+                            muts.append(i[:p] + x + i[p + 1:])
             texts.append(("valid", i))
             texts += [("mutant", m) for m in muts]
     # check-digit values and country codes that occur as literals in the source (a special case for one
@@ -2519,8 +2533,8 @@ def c03(run):
     lit_cc = [s for s in strs if s in S.table]
     lit_dd = sorted({s for s in strs if len(s) == 2 and s.isdigit() and "02" <= s <= "98"} | {"02", "98"})
     pairs = [(cc, dd) for cc in lit_cc for dd in lit_dd]
-    if run.tier != "thorough" and len(pairs) > 500:
-        pairs = r.sample(pairs, 500)
+    if run.tier != "thorough" and len(pairs) > 1500:
+        pairs = r.sample(pairs, 1500)
     for cc, dd in pairs:
         i = S.iban_with_dd(cc, dd)
         if i is None:
